@@ -339,16 +339,15 @@ for ch in ("A",):
            level="B", bounds="literals '::' + at most %d characters from [0-9.]] (including the closing bracket)" % (k - 2),
            functions=["uriParseIPv6address2" + ch], inlined=["uriStopSyntax" + ch, "uriFreeUriMembersMm" + ch, "uriWriteQuadToDoubleByte", "uriGetOctetValue"],
            stubs=["memory manager (ledger stub)", "memcpy/memset: CBMC models"], timeout_s=3000, mem_gb=16)
-for ch in ("A",):
-    ob(id="ParseIPv6address2.groups.K17.%s.H" % ch, props=["C01", "C02", "C03", "C19"], route="H", harness="c02_ip6.c", char=ch,
-       group="uriParseIPv6address2 == RFC 3986 IPv6address recogniser on the slice of long literals over the six symbols 1 2 a F : ] (group placement around '::', eight-group form) - bounded stand-in",
-       defines={"V_K": 17, "SPEC_IP6_MAX": 17, "V_IP6_MODE": 2},
-       # loop .0 is the embedded-IPv4 loop: never entered on this slice (no '.'), which the unwinding assertion confirms
-       unwindset={"uriParseIPv6address2%s.0" % ch: 2, "uriParseIPv6address2%s.1" % ch: 18, "uriParseIPv6address2%s.2" % ch: 3,
+for ch in ("A", "W"):
+    ob(id="ParseIPv6address2.layouts.%s.H" % ch, props=["C01", "C02", "C03", "C19"], route="H", harness="c02_ip6.c", entry="h_layouts", char=ch,
+       group="uriParseIPv6address2 == RFC 3986 IPv6address recogniser on ENUMERATED long literals: p groups, '::', q groups for every p + q <= 8 and the eight-group form, one-digit and four-digit groups with distinct digits (90 constant texts; accept/reject, the 16 address bytes, reads confined) - bounded stand-in by enumeration, not a proof",
+       defines={"V_K": 48, "SPEC_IP6_MAX": 48, "V_IP6_MODE": 3},
+       unwindset={"uriParseIPv6address2%s.0" % ch: 49, "uriParseIPv6address2%s.1" % ch: 49, "uriParseIPv6address2%s.2" % ch: 49,
                   "uriFreeUriMembersMm%s.*" % ch: 2},
-       level="B", bounds="literals of at most 17 characters (including the closing bracket) over the symbols 1 2 a F : ]",
+       level="B", bounds="90 enumerated literals of up to 40 characters (a symbolic slice of 17-character literals over six symbols ran out of memory at 24 GB)",
        functions=["uriParseIPv6address2" + ch], inlined=["uriStopSyntax" + ch, "uriFreeUriMembersMm" + ch, "uriWriteQuadToDoubleByte", "uriGetOctetValue"],
-       stubs=["memory manager (ledger stub)", "memcpy/memset: CBMC models"], timeout_s=3000, mem_gb=24)
+       stubs=["memory manager (ledger stub)", "memcpy/memset: CBMC models"], covers=False, object_bits=12, timeout_s=900, mem_gb=10)
 for ch in ("A",):        # the W instance exceeds the memory budget; the scanner is compiled from the same text
     for (tier, k) in ((Q, 8), (T, 12)):
         ob(id="ParseIPv6address2.K%d.%s.H" % (k, ch), props=["C01", "C02", "C03", "C19"], route="H", harness="c02_ip6.c", char=ch, tier=tier,
@@ -580,7 +579,7 @@ for ch in ("A", "W"):
 import re as _re
 QUICK = {
     "C01": [r"^Wrappers\.A", r"^lemma\.grammar", r"^Dispatch\..*\.A\.D$", r"^Parse(Single)?UriExMm\.A", r"^ParseIpFourAddress\.A", r"^ParseIPv6address2\.", r"^OnExitHost\.A"],
-    "C02": [r"^lemma\.grammar", r"^OnExitHost\.A", r"^PushPathSegment\.A", r"^FixEmptyTrailSegment\.A", r"^ParseIpFourAddress\.A", r"^Marks\..*\.A", r"^OnExitSegment\.A"],
+    "C02": [r"^ParseIPv6address2\.layouts\.A", r"^lemma\.grammar", r"^OnExitHost\.A", r"^PushPathSegment\.A", r"^FixEmptyTrailSegment\.A", r"^ParseIpFourAddress\.A", r"^Marks\..*\.A", r"^OnExitSegment\.A"],
     "C03": [r"^Parse[A-Za-z0-9]+\.A\.D$", r"^(FreeUriMembersMm|StopSyntaxMalloc|PushPathSegment)\.A", r"^ParseIpFourAddress\.A", r"^ParseIPv6address2\.K8\.A"],
     "C04": [r"^ToString\.content\..*\.A"],
     "C05": [r"^ToString\.cap\."],
@@ -597,7 +596,7 @@ QUICK = {
     "C16": [r"^Wrappers\.A", r"^EscapeEx\.A\.N", r"^UnescapeInPlaceEx\.A\.N", r"^EscapeEx\.corner", r"Content\.", r"^EscapeRoundTrip\.", r"^UnescapeTokens\.A"],
     "C17": [r"^Wrappers\.A", r"^ComposeSizes\.", r"^DissectQuery\.", r"^AppendQueryItem\.A", r"^ComposeQuery\.", r"^ComposeQueryMalloc\."],
     "C18": [r"^FilenameRoundTrip", r"^FilenameShortForms\."],
-    "C19": [r"^Wrappers\.W", r"^DefaultManager\.W", r"^NullArgs\.W", r"^ManagerEntry\.W", r"^ComposeSizes\.W", r"^Marks\.Parse(UriTail|AuthorityTwo|OwnUserInfo)\.W", r"^ComposeQueryMalloc\.W", r"^EqualsUri\.W", r"^CompareRange\.W", r"^ToString\.cap\..*\.W", r"^MakeOwner\.W", r"^RemoveBaseUri\.W", r"^DissectQuery\.W", r"Content\.W", r"^EscapeRoundTrip\.W",
+    "C19": [r"^Wrappers\.W", r"^ParseIPv6address2\.layouts\.W", r"^DefaultManager\.W", r"^NullArgs\.W", r"^ManagerEntry\.W", r"^ComposeSizes\.W", r"^Marks\.Parse(UriTail|AuthorityTwo|OwnUserInfo)\.W", r"^ComposeQueryMalloc\.W", r"^EqualsUri\.W", r"^CompareRange\.W", r"^ToString\.cap\..*\.W", r"^MakeOwner\.W", r"^RemoveBaseUri\.W", r"^DissectQuery\.W", r"Content\.W", r"^EscapeRoundTrip\.W",
             r"^OnExitHost\.W", r"^NormalizeMaskRequired\..*\.W", r"^Dispatch\.Parse(PctEncoded|UriReference|OwnHost2|IpFuture)\.W", r"^FilenameShortForms\.W"],
     "C20": [r"^static\.", r"^Watch\..*\.A", r"^Watch\.(AddBaseUri|ComposeQuery)\.W", r"^EqualsUri\.A", r"^ToString\.cap\.regname\.A", r"^MakeOwner\.A"],
 }
